@@ -349,6 +349,17 @@ func Fsck(fs *fstxn.FsState, opts FsckOpts) *FsckReport {
 			if fi.ip.Kind == inode.NF3FREE && (len(fi.data) > 0 || fi.ip.ShrinkSize > 0) {
 				r.bad("leak", "free inode %d still holds %d block(s) (shrink position %d) although no freeing is in progress", inum, len(fi.data), fi.ip.ShrinkSize)
 			}
+			if nblk := (fi.ip.Size + BlockSize - 1) / BlockSize; fi.ip.Kind != inode.NF3FREE && fi.ip.ShrinkSize > nblk {
+				beyond := 0
+				for idx := range fi.data {
+					if idx >= nblk {
+						beyond++
+					}
+				}
+				if beyond > 0 {
+					r.bad("leak", "inode %d (size %d) was cut back but still holds %d block(s) beyond its end (shrink position %d blocks) although no freeing is in progress", inum, fi.ip.Size, beyond, fi.ip.ShrinkSize)
+				}
+			}
 		}
 	}
 	for bn := common.Bnum(0); bn < dataStart; bn++ {
